@@ -30,7 +30,9 @@ fn gen_atom(r: &mut Rng, depth: usize) -> String {
                 format!("{}$", gen_atom(r, depth - 1))
             } else {
                 // an end anchor inside an optional group or an earlier alternative: it holds at the end of the SUBJECT only
-                r.pick(&["(a$)?", "(b$|b)", "(c$)?c?", "([ab]$)?", "(a$)|(a)", "(/$)?(/)?"]).to_string()
+                // ... and arms anchored at the START (`^`, `\b`): they are matched against the text that is LEFT, whose first
+                // character has no left context
+                r.pick(&["(a$)?", "(b$|b)", "(c$)?c?", "([ab]$)?", "(a$)|(a)", "(/$)?(/)?", "^b", "^[a-c]", "^a?b", "\\\\bb", "\\\\b[a-c]", "\\\\Ba"]).to_string()
             }
         }
     }
